@@ -3,6 +3,7 @@ import IbModel.Proofs.JoinCount
 import IbModel.Proofs.JoinEngine
 import IbModel.Model.Program
 import IbModel.Proofs.JoinX
+import IbModel.Proofs.JoinLen
 /-!
 # C07 — joins return exactly the relational join of their two inputs
 
@@ -194,6 +195,103 @@ theorem full_only (L R : List Val) (x : Val) (hx : x ∈ joinFull L R) :
     · exact Or.inr (Or.inl ((mem_unmatchedL Val.some L R x).mp h))
   · exact Or.inr (Or.inr ((mem_unmatchedR Val.some L R x).mp h))
 
+/-! ## §2b row counts (consequences of §1; helper arithmetic in `Proofs/JoinLen.lean`)
+
+How many rows a join returns, for every pair of inputs: the inner join has one row per matching pair — the same number
+counted from either side; an outer join returns at least every row of its preserved side(s) (none is dropped, whether or
+not it has a partner) and exactly the inner join's rows more than its unmatched ones. -/
+
+/-- inner: the number of rows is the number of (left row, right row) pairs with equal keys -/
+theorem inner_length (L R : List Val) :
+    (joinInner L R).length = (L.map (fun a => R.countP (fun b => b.key == a.key))).sum := by
+  rw [(joinInner_perm_nestedLoop L R).length_eq]
+  exact JoinLen.length_nested L R (fun a b => b.key == a.key) _
+
+/-- … counted from the right side it is the same number -/
+theorem inner_length_right (L R : List Val) :
+    (joinInner L R).length = (R.map (fun b => L.countP (fun a => b.key == a.key))).sum := by
+  rw [inner_length]
+  exact JoinLen.nested_count_swap L R (fun a b => b.key == a.key)
+
+/-- left: inner rows + one row per partner-less left row -/
+theorem left_length (L R : List Val) :
+    (joinLeft L R).length = (joinInner L R).length + L.countP (fun a => !R.any (fun b => b.key == a.key)) := by
+  rw [(joinLeft_perm_nestedLoop L R).length_eq, inner_length, List.length_append, List.length_map,
+    List.countP_eq_length_filter]
+  congr 1
+  exact JoinLen.length_nested L R (fun a b => b.key == a.key) _
+
+/-- left: no left row is dropped -/
+theorem left_length_ge (L R : List Val) : L.length ≤ (joinLeft L R).length := by
+  rw [left_length, inner_length, List.countP_eq_length_filter]
+  exact JoinLen.preserved_le L R (fun a b => b.key == a.key)
+
+/-- right: inner rows + one row per partner-less right row -/
+theorem right_length (L R : List Val) :
+    (joinRight L R).length = (joinInner L R).length + R.countP (fun b => !L.any (fun a => a.key == b.key)) := by
+  rw [(joinRight_perm_nestedLoop L R).length_eq, inner_length, List.length_append, List.length_map,
+    List.countP_eq_length_filter]
+  congr 1
+  exact JoinLen.length_nested L R (fun a b => b.key == a.key) _
+
+/-- right: no right row is dropped -/
+theorem right_length_ge (L R : List Val) : R.length ≤ (joinRight L R).length := by
+  rw [right_length, inner_length, List.countP_eq_length_filter,
+    JoinLen.nested_count_swap L R (fun a b => b.key == a.key)]
+  have h := JoinLen.preserved_le R L (fun b a => b.key == a.key)
+  have e : (fun b : Val => !L.any (fun a : Val => a.key == b.key))
+      = (fun b : Val => !L.any (fun a : Val => b.key == a.key)) := by
+    funext b; congr 2; funext a; exact BEq.comm
+  rw [e]; exact h
+
+/-- full: inner rows + partner-less left rows + partner-less right rows -/
+theorem full_length (L R : List Val) :
+    (joinFull L R).length = (joinInner L R).length
+      + L.countP (fun a => !R.any (fun b => b.key == a.key))
+      + R.countP (fun b => !L.any (fun a => a.key == b.key)) := by
+  rw [(joinFull_perm_nestedLoop L R).length_eq, inner_length, List.length_append, List.length_append,
+    List.length_map, List.length_map, List.countP_eq_length_filter, List.countP_eq_length_filter]
+  congr 2
+  exact JoinLen.length_nested L R (fun a b => b.key == a.key) _
+
+/-- full: it contains the left join's and the right join's row counts -/
+theorem full_length_ge (L R : List Val) :
+    L.length ≤ (joinFull L R).length ∧ R.length ≤ (joinFull L R).length := by
+  have hl := left_length_ge L R
+  have hr := right_length_ge L R
+  rw [left_length] at hl
+  rw [right_length] at hr
+  rw [full_length]
+  omega
+
+/-- an empty side: the inner join is empty, an outer join returns exactly the preserved side, un-partnered -/
+theorem inner_empty_right (L : List Val) : joinInner L [] = [] := by
+  apply List.eq_nil_of_length_eq_zero
+  rw [inner_length]
+  induction L with
+  | nil => rfl
+  | cons a L ih => simpa using ih
+
+theorem inner_empty_left (R : List Val) : joinInner [] R = [] := by
+  apply List.eq_nil_of_length_eq_zero
+  rw [inner_length]; rfl
+
+theorem left_empty_right (L : List Val) :
+    (joinLeft L []).Perm (L.map (fun a => .pair a.key (.pair a.value .none))) := by
+  have h := joinLeft_perm_nestedLoop L []
+  have e : L.flatMap (fun a => (([] : List Val).filter (fun b => b.key == a.key)).map
+      (fun b => Val.pair a.key (.pair a.value (.some b.value)))) = [] := by
+    induction L with
+    | nil => rfl
+    | cons a L ih => simp
+  rw [e] at h
+  simpa [JoinLen.filter_const_true] using h
+
+theorem right_empty_left (R : List Val) :
+    (joinRight [] R).Perm (R.map (fun b => .pair b.key (.pair .none b.value))) := by
+  have h := joinRight_perm_nestedLoop [] R
+  simpa [JoinLen.filter_const_true] using h
+
 /-! ## §3 hash order upstream is harmless -/
 
 theorem join_perm_congr (kind : JoinKind) {L L' R R' : List Val} (hL : L.Perm L') (hR : R.Perm R') :
@@ -337,6 +435,9 @@ example : joinInner Lmm Rmm =
     [.pair (i 1) (.pair (i 10) (i 100)), .pair (i 1) (.pair (i 10) (i 101)),
      .pair (i 1) (.pair (i 11) (i 100)), .pair (i 1) (.pair (i 11) (i 101))] := by decide
 example : List.count (.pair (i 1) (.pair (i 10) (i 101))) (joinInner Lmm Rmm) = 1 := by decide
+/-- the row counts of §2b on the same input: 4 pairs; left = 4 + 1 unmatched, right = 4 + 1, full = 4 + 1 + 1 -/
+example : (joinInner Lmm Rmm).length = 4 ∧ (joinLeft Lmm Rmm).length = 5 ∧ (joinRight Lmm Rmm).length = 5
+    ∧ (joinFull Lmm Rmm).length = 6 := by decide
 example : joinLeft Lmm Rmm =
     [.pair (i 1) (.pair (i 10) (.some (i 100))), .pair (i 1) (.pair (i 10) (.some (i 101))),
      .pair (i 1) (.pair (i 11) (.some (i 100))), .pair (i 1) (.pair (i 11) (.some (i 101))),
